@@ -24,7 +24,8 @@ CLAIMS = {
               "length check dominates all work, Ok(()) is reachable only through the success edge of the balance check, and no "
               "path from a confidential value/asset to the next output avoids the missing-proof check and the success edge of "
               "RangeProof::verify / SurjectionProof::verify; plus the argument bindings of the three checks, every push into "
-              "the domain/commitment vectors, the get_value_commit decision table, zero-value admissibility and the exact-value "
+              "the domain/commitment vectors (the spent output's entries pushed for every input, unfiltered), the get_value_commit "
+              "decision table, zero-value admissibility incl. the truth table of Script::is_provably_unspendable, and the exact-value "
               "proof verifiers. That libsecp256k1-zkp rejects a tampered proof is trusted."),
         technique="CFG must-pass-through / failing-edge reachability + provenance of call arguments + decision table",
         design_ref="§4 C05"),
@@ -46,7 +47,8 @@ CLAIMS = {
               "height preferred; this also proves the unreachable!() arms dead); the kill set of unique_id (every non-witness TxIn "
               "field extract_tx fills from a signer/updater-mutable PSET field is reset before txid()); the per-field identity of "
               "from_txin/from_txout composed with extract_tx and the agreement of to_txout with extract_tx, including which source wins "
-              "(commitment over explicit field) on all 16 presence patterns in both views; the 0xffffffff "
+              "(commitment over explicit field) on all 16 presence patterns in both views; the truth table of TxOut::is_partially_blinded that "
+              "decides where from_txout stores the nonce; the 0xffffffff "
               "exemption at every reader of the index flag bits. Whole-value tx->PSET->tx equality is decided per field flow only."),
         technique="abstract interpretation over enum discriminants (exhaustive decision table) + field-flow composition of sibling converters",
         design_ref="§4 C08"),
@@ -57,7 +59,7 @@ CLAIMS = {
               "*_signing_data_to functions is compared row by row with spec tables (36 taproot rows incl. the Elements extensions, 18 "
               "BIP143+issuance rows with mutually exclusive zero-hash alternatives, the legacy construction: SINGLE-bug constant, "
               "ANYONECANPAY input selection, script_sig placement, sequence zeroing, outputs by type, trailing LE hash type); plus the "
-              "contents of the common/segwit/taproot hash caches, the outpoint flag byte and the TapLeaf preimage. Digest equality "
+              "contents of the common/segwit/taproot hash caches, the outpoint flag byte, the Annex encoder (compact size + all bytes) and the TapLeaf preimage. Digest equality "
               "with an independent implementation is not decided."),
         technique="ordered guarded event-sequence extraction from MIR compared with specification tables",
         design_ref="§4 C03, Appendix B"),
@@ -78,7 +80,8 @@ CLAIMS = {
               "panic!/unreachable!, indexing, copy_from_slice, split_at, Vec::remove, chunks) is either discharged by a recognised guard "
               "idiom evaluated on the code (constant-safe, in-memory sink, length-interval guard incl. relational `len >= end`, Some guard, "
               "byte-length arithmetic, guarded subtraction) or listed in tables/panic_sites.tsv with a reason confirmed by reading and, for "
-              "parser sites, the dominating guards the reason depends on; plus the bounded-allocation rule for sizes derived from decoded "
+              "parser sites, the dominating guards the reason depends on (for the script-template predicates guarding Address::from_script, "
+              "their exact truth tables); plus the bounded-allocation rule for sizes derived from decoded "
               "integers. A new unguarded site, or the removal of a guard a discharge/table entry relies on, is a violation. "
               "The reasons in the table are reviewed judgements, not machine proofs."),
         technique="reachability on the instance call graph + per-site guard discharge (interval/dominance) + reviewed exception table + taint-to-allocation rule",
@@ -198,7 +201,7 @@ CLAIMS = {
               "range-proof message layout is identical in both directions and unblind returns the rewound value/blinder and the checked message; "
               "sender and receiver derive the shared secret with the same function; verify_tx_amt_proofs reaches Ok only through the balance "
               "equation over inputs(+issuance pseudo-inputs) and outputs with a range-proof check per confidential value and a surjection check "
-              "per confidential asset. NOT decided: that blinding succeeds, that proofs verify, that commitments balance."),
+              "per confidential asset, over a domain that holds every spent output's generator unfiltered. NOT decided: that blinding succeeds, that proofs verify, that commitments balance."),
         technique="structured-listing extraction + term-level factor-flow rules + predicate truth tables + must-pass-through (dominance)",
         design_ref="§4 C04"),
     "C17": dict(
